@@ -3,6 +3,7 @@ import IslaVerif.Driver.C04
 import IslaVerif.Driver.C09
 import IslaVerif.Driver.C10
 import IslaVerif.Driver.C16
+import IslaVerif.Driver.C20
 namespace IslaVerif.Driver
 open IslaVerif
 
@@ -12,6 +13,7 @@ def dispatch : Sexp → Sexp
   | .list (.atom "c09" :: rest) => C09.handle rest
   | .list (.atom "c10" :: rest) => C10.handle rest
   | .list (.atom "c16" :: rest) => C16.handle rest
+  | .list (.atom "c20" :: rest) => C20.handle rest
   | _ => .atom "bad-request"
 
 end IslaVerif.Driver
